@@ -111,3 +111,13 @@ impl<'a> IntoIterator for &'a RegTape {
         self.tape.iter()
     }
 }
+
+/// Verification hooks (only compiled with `--cfg fidget_verif`)
+#[cfg(fidget_verif)]
+impl RegTape {
+    /// Builds a tape from a list of operations (stored front-to-back, i.e. in
+    /// reverse evaluation order) and a slot count
+    pub fn verif_from_ops(tape: Vec<RegOp>, slot_count: u32) -> Self {
+        Self { tape, slot_count }
+    }
+}
